@@ -249,3 +249,6 @@ for fn in ("next", "seek"):
     add(f"rd_{fn}_dfcc", ["C03"], ["tu/reader_dfcc.c"], f"h_reader_{fn}_dfcc", mode="dfcc", enforce=f"reader_iter_{fn}/reader_iter_{fn}__spec", replace=RD_DFCC_REPL,
         unwind=12, timeout=600, strength="U", functions=[f"reader_iter_{fn}", "get_block_at_index", "needs_index_seek"],
         assumptions=["mtbl/block.c functions and get_block replaced by contracts; get_block's contract records (block, offset) in ghosts; any table, any contents, any iterator kind"])
+add("fs_dup_destroy", ["C07", "C18"], ["tu/fileset_step.c"], "h_fileset_dup_destroy", unwind=5, timeout=600, safety="P",
+    strength="B: dup of an arbitrary handle, first reload of the dup, destruction of both handles in either order; <= 3 entries in the reader set",
+    functions=["mtbl_fileset_dup", "mtbl_fileset_set_options", "mtbl_fileset_destroy", "mtbl_fileset_reload", "fs_reinit_merger"], assumptions=FS_ASSUME + ["memory-safety checks are property-grade here (no use of the shared state after it is freed)"], replay="c07")
